@@ -65,7 +65,8 @@ CLAIMED = {
              "entry, every operation on the outer or the batch trie, and every kind of exit incl. failing commits (Free.lockstep_begin, "
              "lockstep_op_outer, lockstep_op_batch, lockstep_end, Free.op_is_executor_op_view), given that the view the operated trie "
              "reads is complete for its root (discharged along blocks on a pruning trie: Free.view_complete_on_entry, "
-             "view_complete_batch_op, complete_after_commit; a hypothesis for blocks on a non-pruning trie); two specification subtleties were machine-found there (the view equals what ScratchDB "
+             "view_complete_batch_op, complete_after_commit; and on a non-pruning trie: Free.np_view_complete_batch_op, "
+             "np_complete_after_commit); two specification subtleties were machine-found there (the view equals what ScratchDB "
              "reads only for caches with unique keys - view_is_what_is_read, cache_keys_unique_* - and the counts slot). "
              "Tie: exact db, root and counts after every step, every exit kind and position, for the tree-carrying AND the tree-free world.",
         technique="Lean 4 proof (invariants of the world executor) + correspondence check with fault injection",
